@@ -6,6 +6,7 @@ P = 'photutils/psf/photometry.py::PSFPhotometry'
 
 
 def register(reg):
+    register_flags(reg)
     reg.record('PSFPhotometryOrder', {'_group_results': ('dict', {'ungroup_indices': ('seq', 'int')})})
     idx = "self._group_results['ungroup_indices']"
     reg.add(Contract(
@@ -37,4 +38,37 @@ def register(reg):
                   "sources['id'].value[value[m]]), (0, len(value)), (0, len(value)))")],
         mutants=[("np.argsort(sources['id'].value)", "np.argsort(sources['id'].value)[::-1]"),
                  ("np.argsort(sources['id'].value)", "np.argsort(np.argsort(sources['id'].value))")],
+    ))
+
+
+def register_flags(reg):
+    """C12 "flags reflect the mask, edges and bounds as documented": per row, flag 1 iff fewer
+    pixels were fitted than the fit shape holds, flag 2 iff the fitted position lies outside the
+    image (x against the number of columns, y against the number of rows), flag 4 iff the fitted
+    flux is not positive -- each row from its own values only."""
+    reg.record('FitRow', {'npixfit': 'nat', 'x_fit': 'real', 'y_fit': 'real', 'flux_fit': 'real'})
+    maps = {'model': {'x': 'x_0', 'y': 'y_0', 'flux': 'flux'},
+            'fit': {'x_0': 'x_fit', 'y_0': 'y_fit', 'flux': 'flux_fit'}}
+    reg.record('PSFPhotometryFlags', {'_param_maps': ('const', maps),
+                                      'fit_shape': ('tuple', 'pos', 'pos')})
+    row = 'results_tbl[k]'
+    reg.add(Contract(
+        target=f'{P}._define_flags', props=['C12'], kind='method', block=('flags', 'flags', 1),
+        tag='flags-1-2-4', block_like='np.zeros(len(results_tbl), dtype=int)',
+        params={'self': 'PSFPhotometryFlags', 'results_tbl': ('seq', 'FitRow'),
+                'shape': ('tuple', 'pos', 'pos')},
+        ensures=[
+            ('one-flag-word-per-row', 'flags.shape == (len(results_tbl),)'),
+            ('flags-1-2-4-per-row',
+             'forall(lambda k: flags[k] == '
+             f'ite({row}.npixfit < self.fit_shape[0] * self.fit_shape[1], 1, 0) + '
+             f'ite({row}.x_fit < 0 or {row}.y_fit < 0 or {row}.x_fit > shape[1] or '
+             f'{row}.y_fit > shape[0], 2, 0) + ite({row}.flux_fit <= 0, 4, 0), '
+             '(0, len(results_tbl)))'),
+        ],
+        mutants=[("row[xcolname] > shape[1] or row[ycolname] > shape[0]",
+                  "row[xcolname] > shape[0] or row[ycolname] > shape[1]"),
+                 ("if row[fluxcolname] <= 0:", "if row[fluxcolname] < 0:"),
+                 ("flags[index] += 2", "flags[index] += 1"),
+                 ("if row['npixfit'] < np.prod(self.fit_shape):", "if row['npixfit'] <= np.prod(self.fit_shape):")],
     ))
